@@ -28,6 +28,8 @@ func init() {
 	Theory["le64"] = TheoryFn{SMT: "le64", HeapArg: "byte", Ret: "Int", RetBV: "(_ BitVec 64)", RetT: typU64}
 	Theory["le64z"] = TheoryFn{SMT: "le64z", HeapArg: "byte", Ret: "Int", RetBV: "(_ BitVec 64)", RetT: typU64}
 	Theory["be64"] = TheoryFn{SMT: "be64", HeapArg: "byte", Ret: "Int", RetBV: "(_ BitVec 64)", RetT: typU64}
+	// smear(x): the smallest 2^b-1 >= x (all bits below the top set bit of x set); bv mode only
+	Theory["smear"] = TheoryFn{SMT: "smear64", Ret: "Int", RetBV: "(_ BitVec 64)", RetT: typU64}
 	// ChaCha20 (int mode only): ks(sid, i) is byte i of the keystream of stream sid;
 	// chachaStream(key, nonce) names the stream of a 32-byte key and a 12-byte nonce by their contents.
 	Theory["ks"] = TheoryFn{SMT: "ks", Ret: "Int", RetT: types.Typ[types.Uint8]}
@@ -56,6 +58,7 @@ func TheoryPrelude(m Mode) string {
 		fmt.Fprintf(&b, "(define-fun le64 ((h %s) (s Slice)) (_ BitVec 64) (concat %s))\n", hs, strings.Join(le, " "))
 		fmt.Fprintf(&b, "(define-fun be64 ((h %s) (s Slice)) (_ BitVec 64) (concat %s))\n", hs, strings.Join(be, " "))
 		fmt.Fprintf(&b, "(define-fun le64z ((h %s) (s Slice) (n %s)) (_ BitVec 64) (concat %s))\n", hs, ix, strings.Join(lez, " "))
+		b.WriteString("(define-fun smear64 ((x (_ BitVec 64))) (_ BitVec 64) (let ((a (bvor x (bvlshr x (_ bv1 64))))) (let ((b (bvor a (bvlshr a (_ bv2 64))))) (let ((c (bvor b (bvlshr b (_ bv4 64))))) (let ((d (bvor c (bvlshr c (_ bv8 64))))) (let ((e (bvor d (bvlshr d (_ bv16 64))))) (bvor e (bvlshr e (_ bv32 64)))))))))\n")
 	} else {
 		hs := "(Array Int (Array Int Int))"
 		byteAt := func(k int) string {
@@ -70,6 +73,7 @@ func TheoryPrelude(m Mode) string {
 		fmt.Fprintf(&b, "(define-fun le64 ((h %s) (s Slice)) Int (+ %s))\n", hs, strings.Join(le, " "))
 		fmt.Fprintf(&b, "(define-fun be64 ((h %s) (s Slice)) Int (+ %s))\n", hs, strings.Join(be, " "))
 		fmt.Fprintf(&b, "(define-fun le64z ((h %s) (s Slice) (n Int)) Int (+ %s))\n", hs, strings.Join(lez, " "))
+		b.WriteString("(declare-fun smear64 (Int) Int)\n")
 		b.WriteString("(declare-fun ks (Int Int) Int)\n(declare-fun xor8 (Int Int) Int)\n")
 		b.WriteString("(assert (forall ((x Int)) (! (= (xor8 0 x) x) :pattern ((xor8 0 x)))))\n")
 		b.WriteString("(assert (forall ((s Int) (i Int)) (! (and (<= 0 (ks s i)) (<= (ks s i) 255)) :pattern ((ks s i)))))\n")
